@@ -151,3 +151,30 @@ pub fn all_dfas(n: usize, classes: ClassFn, vary_always: bool) -> Vec<TableDfa> 
     }
     out
 }
+
+/// A FINITE family of larger DFAs (3..8 states): member i is a fixed function
+/// of i (transition table, accepting set and a randomly WEAKENED but sound
+/// hint assignment: can_match true in some states that cannot reach acceptance,
+/// will_always_match false in some states that always accept).
+pub fn family_dfas(count: usize, classes: ClassFn) -> Vec<TableDfa> {
+    let mix = crate::model::mix64;
+    (0..count as u64)
+        .map(|i| {
+            let n = 3 + (i % 6) as usize;
+            let mut delta = vec![[0usize; 2]; n];
+            for s in 0..n {
+                for k in 0..2 {
+                    delta[s][k] = (mix(i * 64 + (s * 2 + k) as u64) % n as u64) as usize;
+                }
+            }
+            let abits = mix(i ^ 0xabcdef) | if i % 5 == 0 { 0 } else { 1 << (i % n as u64) };
+            let accept: Vec<bool> = (0..n).map(|s| abits >> s & 1 == 1 && (i % 7 != 0 || s != 0)).collect();
+            let reach = TableDfa::reach_accept(&delta, &accept);
+            let alla = TableDfa::all_accept(&delta, &accept);
+            let w = mix(i ^ 0x5555);
+            let can: Vec<bool> = (0..n).map(|s| reach[s] || w >> s & 1 == 1).collect();
+            let always: Vec<bool> = (0..n).map(|s| alla[s] && w >> (8 + s) & 1 == 1).collect();
+            TableDfa { classes, delta, accept, can, always }
+        })
+        .collect()
+}
